@@ -19,6 +19,16 @@ THEOREMS = [
     "C17_gives_up_only_over_budget",
     "C17_exactly_once_any_splitter",
     "C17_httpx_splitter_refuted",
+    "C17_run_is_live",
+    "C17_live_never_duplicates",
+    "C17_live_exactly_once",
+    "C17_reconnect_cursors",
+    "C17_last_sequence_at_every_yield",
+    "C17_chunking_irrelevant",
+    "C17_cursor_text_roundtrip",
+    "C17_reader_source_shape",
+    "C17_internal_filter",
+    "C17_serve_source_shape",
 ]
 LEAN_TARGETS = ["WfProps.C17"]
 EXPLANATION = (
@@ -37,7 +47,22 @@ EXPLANATION = (
     "httpx.ReadError and re-chunked at random sizes, compared run by run with the model driver (yielded sequence/event "
     "pairs, final last_sequence, cursors sent, result kind); the framing alone compared byte for byte; hand-written "
     "malformed bodies compared likewise. Search: exactly-once / order / last_sequence / cursor monitors stated directly "
-    "on the observed real runs."
+    "on the observed real runs. "
+    "Extension: (a) the log may GROW while the client streams -- runLive plays each scripted connection against the log as the server "
+    "knows it when that connection ends; C17_live_never_duplicates / C17_live_exactly_once / C17_last_sequence_at_every_yield hold for "
+    "every history of appends (between connections and while one is open) and every script, run being the constant history "
+    "(C17_run_is_live); (b) C17_reconnect_cursors: one request per connection, the first with the start cursor, each later one with the "
+    "last_sequence of a moment of the stream that only moves forward, never going back; (c) the include_internal filter of "
+    "_resolve_event_stream is inside the model (204 test on all remaining events, frames for the shown ones): every theorem now "
+    "quantifies over logs with InternalDispatchEvents and both flag values, C17_internal_filter says hidden events are never yielded and "
+    "cost no shown event; (d) the client's line iterator chunk by chunk (iterLines; C17_chunking_irrelevant: any chunking, empty chunks "
+    "included, gives the lines of the whole text), str(last_sequence) -> int(after_sequence) (C17_cursor_text_roundtrip), the consumer "
+    "(streamLast); (e) regenerated and pinned: statement shapes of _iter_sse_lines, EventStream, the reconnect loop in source order, "
+    "status dispatch, except clauses, request parameter / header keys, the 204 of _stream_events, the normalised source of "
+    "_resolve_event_stream from the 204 test on, the set of characters int() skips (measured on the runtime: not U+001C..U+001F). "
+    "New correspondence streams: live (real MemoryWorkflowStore revealed step by step, appends GROW_AT virtual seconds into an open "
+    "connection), internal (real UnhandledEvents and hand-built envelopes, include_internal_events false/true on the real client), "
+    "framing with hidden events, _iter_sse_lines alone on arbitrary chunkings with and without a clean end, int() / str() alone."
 )
 ASSUMPTIONS = [
     "EventEnvelopeWithMetadata.model_validate_json is the model parameter `valid`; theorems assume it accepts every payload the server sends "
@@ -46,7 +71,12 @@ ASSUMPTIONS = [
     "model_dump_json) is checked on every generated payload, not proved",
     "log hypothesis (sequences strictly increasing, a terminal event only in last position) belongs to C16; generated logs satisfy it",
     "UTF-8 incremental decoding (httpx TextDecoder: an incomplete trailing character never reaches the reader) is modelled by takeBytes",
-    "the 'now' cursor, include_internal filtering, aclose()/cancellation are outside the model",
+    "the 'now' cursor and aclose()/cancellation are outside the model",
+    "a growing log is modelled by one snapshot per connection (the log and status the server knows when that connection ends); the 204 "
+    "decision, taken when the connection starts, is read off the same snapshot: exact for appends between connections, and for appends "
+    "while a connection is open as long as the run's status turns terminal no earlier than its last append (how the harness scripts it)",
+    "the include_internal flag is a field of the server snapshot (the reader sends the same flag on every connection: hypothesis Grows.view, "
+    "pinned by the generated requestParams / loop shape)",
     "starlette's StreamingResponse (str chunk -> UTF-8 bytes, chunked transfer) is replaced by the scripted transport",
     "asyncio scheduling between the reader task and the consumer is exercised only on the virtual-time loop",
 ]
@@ -94,8 +124,10 @@ def gen_msg(rng: random.Random) -> tuple[str, str]:
                                    rng.randint(0x1, 0x1F), rng.randint(0x1F300, 0x1F64F)])) for _ in range(k)), "random"
 
 
-def gen_events(rng: random.Random) -> tuple[list[dict], str]:
-    n = rng.choice([0, 1, 1, 2, 2, 3, 3, 4, 5, 6])
+def gen_events(rng: random.Random, internal_p: float = 0.0) -> tuple[list[dict], str]:
+    """internal_p > 0: that share of the non-final events are InternalDispatchEvents (real
+    `UnhandledEvent`s, or hand-built envelopes naming the class as their type / among their types)"""
+    n = rng.choice([0, 1, 1, 2, 2, 3, 3, 4, 5, 6]) if not internal_p else rng.choice([1, 2, 3, 3, 4, 4, 5, 6, 7, 8])
     seq = 0 if rng.random() < 0.8 else rng.randint(1, 30)
     gaps = rng.random() < 0.2
     terminated = rng.random() < 0.75 and n > 0
@@ -110,6 +142,16 @@ def gen_events(rng: random.Random) -> tuple[list[dict], str]:
             ev["type"] = rng.choice(["Custom", "Évént", "Stop", "StopEventX"])
             ev["types"] = rng.choice([None, ["Base"], ["Événement"]])
             ev["qn"] = rng.choice([None, "pkg.mod.Custom"])
+        if internal_p and kind != "stop" and rng.random() < internal_p:
+            v = rng.random()
+            if v < 0.6:
+                ev["kind"] = "internal"
+            else:
+                ev["kind"] = "custom"
+                ev["type"] = "InternalDispatchEvent" if v < 0.7 else rng.choice(["StepStateChanged", "Custom", "InternalDispatchEventX"])
+                ev["types"] = None if v < 0.7 else rng.choice([["InternalDispatchEvent"], ["Base", "InternalDispatchEvent"],
+                                                                ["InternalDispatchEvent", "Base"]])
+                ev["qn"] = None
         evs.append(ev)
         seq += 1 + (rng.randint(0, 4) if gaps else 0)
     if terminated:
@@ -197,7 +239,21 @@ def gen_conns(rng: random.Random, evs: list[dict], payloads: list[str], c0: int,
 
 
 def gen_case(rng: random.Random, family: str = "mixed") -> dict:
+    if family == "internal":
+        # the include_internal filter: logs with hidden events at the start, between shown ones, at the end
+        evs, status = gen_events(rng, internal_p=rng.choice([0.3, 0.5, 0.8]))
+        incl = rng.random() < 0.3
+        case = _case_around(rng, evs, status, rng.choice(["mixed", "drops", "drops", "budget"]),
+                            shown=None if incl else [i for i, e in enumerate(evs) if not sse.is_internal(e)])
+        case["family"] = "internal"
+        case["incl"] = incl
+        return case
     evs, status = gen_events(rng)
+    return _case_around(rng, evs, status, family)
+
+
+def _case_around(rng: random.Random, evs: list[dict], status: str, family: str, shown: list[int] | None = None) -> dict:
+    """shown: indices of the events that produce a frame (drops are aimed at those frames)"""
     payloads = [sse.payload_of(e) for e in evs]
     seqs = [e["seq"] for e in evs]
     r = rng.random()
@@ -213,8 +269,126 @@ def gen_case(rng: random.Random, family: str = "mixed") -> dict:
         mx: Any = rng.choice([0, 1, 1, 2, 2, 3])
     else:
         mx = rng.choice([0, 1, 2, 3, 3, 4, 5, 5, "D"])
+    aim_evs = evs if shown is None else [evs[i] for i in shown]
+    aim_payloads = payloads if shown is None else [payloads[i] for i in shown]
     return {"events": evs, "status": status, "c0": c0, "max": mx, "hb": 5.0 if hb_on else None,
-            "conns": gen_conns(rng, evs, payloads, c0n, hb_on, family), "family": family}
+            "conns": gen_conns(rng, aim_evs, aim_payloads, c0n, hb_on, family), "family": family}
+
+
+# ---- a log that grows while the client streams
+
+
+def gen_live_case(rng: random.Random) -> dict:
+    """The run appends its events between the scripted connections ("vis": how many events are in the
+    store when the connection is made) and, on some connections, while the connection is open ("vis2":
+    how many there are after the append, which happens GROW_AT virtual seconds after the response
+    started).  Only the last connection is undisturbed, and it sees the whole log."""
+    while True:
+        evs, status = gen_events(rng)
+        if len(evs) >= 2:
+            break
+    n = len(evs)
+    payloads = [sse.payload_of(e) for e in evs]
+    seqs = [e["seq"] for e in evs]
+    r = rng.random()
+    c0: Any = (-1 if rng.random() < 0.85 else "D") if r < 0.6 else (rng.choice(seqs[:-1]) if r < 0.9 else rng.randint(-3, seqs[-1] + 1))
+    c0n = -1 if c0 == "D" else c0
+    mid = rng.random() < 0.6          # appends while a connection is open (heartbeats off then)
+    hb_on = (not mid) and rng.random() < 0.3
+    beat = len(b": heartbeat\n\n")
+    conns: list[dict] = []
+    vis = rng.choice([0, 0, 1, 1, 2]) if n > 2 else rng.choice([0, 1])
+    cursor = c0n                      # rough estimate of the client's cursor, only to aim the drops
+    for _ in range(rng.choice([1, 2, 2, 3, 3, 4, 5, 6])):
+        vis = min(n, vis + rng.choice([0, 0, 1, 1, 2, 3]))
+        conn: dict = {"vis": vis}
+        vend = vis
+        if mid and vis < n and c0n < seqs[vis] and rng.random() < 0.6:
+            vend = min(n, vis + rng.choice([1, 1, 2, 3]))
+            conn["vis2"] = vend
+        x = rng.random()
+        if x < 0.22:
+            conn["f"] = "refuse"
+        elif x < 0.90:
+            rem = [i for i in range(vend) if seqs[i] > cursor]
+            hb = [rng.choice([0, 0, 0, 1, 2]) for _ in range(len(rem) + 1)] if hb_on and rng.random() < 0.7 else []
+            lens = [frame_len(evs[i], payloads[i]) for i in rem]
+            starts, pos = [], 0
+            for j, (a, b, t) in enumerate(lens):
+                pos += (hb[j] if j < len(hb) else 0) * beat
+                starts.append(pos)
+                pos += t
+            if not lens or rng.random() < 0.15:
+                off = rng.choice([0, 1, 3, pos + 5])
+                conn["aim"] = "any"
+            else:
+                j = rng.randrange(len(lens))
+                a, b, t = lens[j]
+                where = rng.choice(["in-id", "after-id", "in-tag", "json-start", "in-json", "in-json", "before-nl", "between-nl",
+                                    "frame-end", "next-first"])
+                off = starts[j] + {"in-id": rng.randint(1, max(1, a - 2)), "after-id": a, "in-tag": a + rng.randint(1, 5),
+                                   "json-start": b, "in-json": rng.randint(b + 1, max(b + 1, t - 3)), "before-nl": t - 2,
+                                   "between-nl": t - 1, "frame-end": t, "next-first": t + 1}[where]
+                conn["aim"] = where
+            conn.update({"f": "drop" if x < 0.84 else "tread", "n": max(0, off),
+                         "chunks": [rng.choice([1, 2, 3, 5, 7, 16, 64, 1000, 1 << 20]) for _ in range(rng.randint(1, 4))], "hb": hb})
+            for j, (a, b, t) in enumerate(lens):
+                if starts[j] + t - 1 <= conn["n"]:
+                    cursor = seqs[rem[j]]
+        elif x < 0.94:
+            conn["f"] = "tconn"
+        else:
+            conn.update({"f": "status", "code": rng.choice([404, 500, 503])})
+        conns.append(conn)
+        vis = vend
+    rem = [i for i in range(n) if seqs[i] > cursor]
+    conns.append({"f": "none", "vis": n, "chunks": [rng.choice([1, 4, 13, 100, 1 << 20]) for _ in range(rng.randint(1, 3))],
+                  "hb": [rng.choice([0, 0, 1]) for _ in range(len(rem) + 1)] if hb_on else []})
+    mx: Any = rng.choice([1, 2, 3, 3, 4, 5, "D"]) if rng.random() < 0.8 else rng.choice([0, 1])
+    return {"events": evs, "status": status, "c0": c0, "max": mx, "hb": 5.0 if hb_on else None, "conns": conns,
+            "family": "live", "live": True}
+
+
+# ---- the line iterator, int() and str() on their own
+
+LINE_PIECES = ["id: 5", "data: {\"k\":1}", "data: {\"m\":\"a\u2028b\"}", ": heartbeat", "", "x", " ", "\r", "é", "日本", "😀", "\x85", "\x0b", "\x0c",
+               "\x1c", "\u2029", "id:", "tail"]
+
+
+def gen_chunks(rng: random.Random) -> tuple[list[str], bool]:
+    text = ""
+    for _ in range(rng.randint(0, 8)):
+        text += rng.choice(LINE_PIECES)
+        if rng.random() < 0.75:
+            text += rng.choice(["\n", "\n", "\n\n", "\r\n"])
+    chunks: list[str] = []
+    pos = 0
+    while pos < len(text):
+        if rng.random() < 0.12:
+            chunks.append("")
+        k = rng.choice([1, 1, 2, 3, 5, 8, 20, 1000])
+        chunks.append(text[pos:pos + k])
+        pos += k
+    if rng.random() < 0.2:
+        chunks.append("")
+    return chunks, rng.random() < 0.6
+
+
+INT_DIGITS = "0123456789" + "٠١٢٣٤٥٦٧٨٩" + "०१२" + "０１９" + "𝟘𝟡"
+INT_OTHER = ["_", "_", "+", "-", " ", "\t", "\n", "\u2028", "\xa0", "\x1c", "x", ".", "e", "²", "Ⅷ", "__", "٫", ""]
+
+
+def gen_int_text(rng: random.Random) -> str:
+    r = rng.random()
+    if r < 0.15:
+        return rng.choice(ID_TEXTS)
+    if r < 0.45:
+        return rng.choice(["", "", " ", "-", "+"]) + "".join(rng.choice(INT_DIGITS[:10]) for _ in range(rng.randint(1, 25))) + rng.choice(["", "", " ", "\n"])
+    parts = [rng.choice(["", "", " ", "\t", "\u3000"]), rng.choice(["", "", "-", "+", "- ", "+-"])]
+    for _ in range(rng.randint(0, 6)):
+        parts.append(rng.choice(INT_DIGITS) if rng.random() < 0.75 else rng.choice(INT_OTHER))
+    parts.append(rng.choice(["", "", " ", "\r\n", "\x85"]))
+    return "".join(parts)
 
 
 # ---- hand-written bodies (malformed-stream correspondence)
@@ -299,6 +473,14 @@ def conn_tok(conn: dict) -> str:
     return f"{fault_tok(conn)}~{','.join(map(str, conn.get('hb', [])))}~{raw}"
 
 
+def live_conn_tok(case: dict, conn: dict) -> str:
+    """the snapshot of that connection: the events in the store by the time it ends, and whether the
+    handler's status is terminal by then"""
+    vend = conn.get("vis2", conn["vis"])
+    sd = 1 if (vend >= len(case["events"]) and status_done(case)) else 0
+    return f"{conn_tok(conn)}~{vend}:{sd}"
+
+
 def status_done(case: dict) -> bool:
     return case.get("status", "running") in ("completed", "failed", "cancelled")
 
@@ -309,10 +491,20 @@ def op_line(case: dict, payloads: list[str], terminals: list[bool]) -> str:
         valid = ";".join(cps(v) for v in VALID_JSON)
         sd = "0"
     else:
-        evs = ";".join(f"{e['seq']}:{1 if t else 0}:{cps(p)}" for e, p, t in zip(case["events"], payloads, terminals))
+        evs = ev_tokens(case["events"], payloads, terminals)
         valid = ""
         sd = "1" if status_done(case) else "0"
-    return "|".join(["run", str(case["max"]), str(case["c0"]), sd, evs, valid, ";".join(conn_tok(c) for c in case["conns"])])
+    # the trailing field is the include_internal flag the real client sends (its default: false)
+    incl = ["1" if case["incl"] else "0"] if "incl" in case else []
+    if case.get("live"):
+        return "|".join(["live", str(case["max"]), str(case["c0"]), evs, valid, ";".join(live_conn_tok(case, c) for c in case["conns"])] + incl)
+    return "|".join(["run", str(case["max"]), str(case["c0"]), sd, evs, valid, ";".join(conn_tok(c) for c in case["conns"])] + incl)
+
+
+def ev_tokens(evs: list[dict], payloads: list[str], terminals: list[bool]) -> str:
+    """`seq:terminal:codepoints`, with a fourth field `I` for an InternalDispatchEvent"""
+    return ";".join(f"{e['seq']}:{1 if t else 0}:{cps(p)}" + (":I" if sse.is_internal(e) else "")
+                    for e, p, t in zip(evs, payloads, terminals))
 
 
 def impl_line(case: dict, obs: dict, payloads: list[str]) -> str:
@@ -362,9 +554,12 @@ def monitor(case: dict, obs: dict, payloads: list[str], terminals: list[bool]) -
     evs = case["events"]
     c0 = -1 if case["c0"] == "D" else case["c0"]
     later = [i for i, e in enumerate(evs) if e["seq"] > c0]
+    # the consumer asked for internal events or not (client default: not); hidden ones must never be yielded
+    incl = bool(case.get("incl", False))
     expected: list[int] = []
     for i in later:
-        expected.append(i)
+        if incl or not sse.is_internal(evs[i]):
+            expected.append(i)
         if terminals[i]:
             break
     got: list[int] = []
@@ -373,6 +568,10 @@ def monitor(case: dict, obs: dict, payloads: list[str], terminals: list[bool]) -
         idx = payloads.index(dump) if dump in payloads else None
         if idx is None:
             res.append(Violation("C17/foreign-event", f"yielded an event that is not in the log: {dump[:120]!r}", case))
+            return res
+        if not incl and sse.is_internal(evs[idx]):
+            res.append(Violation("C17/internal-event-yielded", f"include_internal_events=False but the stream yielded the internal event "
+                                 f"with sequence {evs[idx]['seq']}", case))
             return res
         got.append(idx)
         if ls != evs[idx]["seq"]:
@@ -441,7 +640,10 @@ def run(env: Env) -> Outcome:
     out.rule = ("logs of 0-6 events (ASCII / multi-byte / str.splitlines characters / 1-20 kB payloads, gaps in sequences, with and "
                 "without a terminal event) x start cursor x max_reconnect_attempts 0..5 or default x scripts of refusals, drops aimed at "
                 "every part of a frame, timeouts, status codes x heartbeat schedules x random re-chunking; plus hand-written malformed "
-                "bodies; non-trivial = at least one reconnect and one event; distinct by case")
+                "bodies; plus logs that grow between the scripted connections and while a connection is open; plus logs with "
+                "InternalDispatchEvents (real UnhandledEvents, hand-built envelopes naming the class) under include_internal false/true; "
+                "plus the line iterator alone on arbitrary chunkings, int() and str() alone; "
+                "non-trivial = at least one reconnect and one event; distinct by case")
     rng = random.Random(env.rng.randrange(1 << 30))
     cases: list[dict] = []
     if env.replay is not None:
@@ -453,6 +655,11 @@ def run(env: Env) -> Outcome:
         cases.append(gen_case(rng, fam))
     for _ in range(env.budget(350, 6000)):
         cases.append(gen_raw_case(rng))
+    rng_live = random.Random(rng.randrange(1 << 30))
+    for _ in range(env.budget(300, 6000)):
+        cases.append(gen_live_case(rng_live))
+    for _ in range(env.budget(300, 5000)):
+        cases.append(gen_case(rng_live, "internal"))
 
     ops: list[str] = []
     impl: list[str] = []
@@ -486,6 +693,19 @@ def run(env: Env) -> Outcome:
                 out.count("payload:" + e.get("cls", "corpus"))
             if case.get("hb"):
                 out.count("heartbeats:on")
+            if "incl" in case:
+                hid = [sse.is_internal(e) for e in case["events"]]
+                out.count("internal:include_internal=" + ("true" if case["incl"] else "false"))
+                out.count("internal:internal-events-in-log:%s" % (sum(hid) if sum(hid) < 4 else "4+"))
+                if hid and hid[-1]:
+                    out.count("internal:log-ends-with-internal-event")
+                if any(a and not b for a, b in zip(hid, hid[1:])):
+                    out.count("internal:internal-before-shown")
+            if case.get("live"):
+                vs = [c["vis"] for c in case["conns"]]
+                out.count("live:appends-between-connections:%d" % min(3, sum(1 for a, b in zip(vs, vs[1:]) if b > a)))
+                out.count("live:appends-while-open:%d" % min(3, sum(1 for c in case["conns"] if c.get("vis2") is not None)))
+                out.count("live:first-connection-sees:%s" % ("nothing" if vs[0] == 0 else "part"))
             out.violations += monitor(case, obs, payloads, terminals)
         if len(obs["reqs"]) > 1 and obs["yielded"]:
             out.nontrivial(json.dumps(case, sort_keys=True, default=repr))
@@ -516,17 +736,76 @@ def run(env: Env) -> Outcome:
         impl2.append(f"status={st}" if body is None else f"stream closes={1 if closed else 0} body={cps(body)}")
         ctx.append({"framing": True, "events": evs, "status": status, "cursor": cur, "hb": hb, "hb_interval": case["hb"]})
 
+    # ---- framing with hidden events: what is framed, when the answer is 204, when the stream closes
+    rng_f = random.Random(rng.randrange(1 << 30))
+    for _ in range(env.budget(150, 2500)):
+        evs, status = gen_events(rng_f, internal_p=rng_f.choice([0.3, 0.5, 0.8]))
+        case = {"events": evs, "status": status, "hb": 5.0 if rng_f.random() < 0.4 else None, "incl": rng_f.random() < 0.3}
+        seqs = [e["seq"] for e in evs]
+        cur = rng_f.choice([-1, -1] + seqs + [rng_f.randint(-2, max(seqs) + 2)])
+        payloads = [sse.payload_of(e) for e in evs]
+        terminals = [sse.is_terminal(e) for e in evs]
+        nlater = len([s for s in seqs if s > cur])
+        nshown = len([e for e in evs if e["seq"] > cur and (case["incl"] or not sse.is_internal(e))])
+        hb = [rng_f.choice([0, 0, 1, 2]) for _ in range(nshown)] if case["hb"] else []
+        if not any(t and s > cur for t, s in zip(terminals, seqs)) and not (nlater == 0 and (status != "running" or terminals[-1])):
+            case["hb"] = None
+            hb = []
+        st, body, closed = sse.run_serve(case, str(cur), hb)
+        out.evaluations += 1
+        out.count("framing-internal:" + ("204" if st == 204 else ("empty-stream" if not body else "stream")))
+        out.count("framing-internal:include_internal=" + ("true" if case["incl"] else "false"))
+        ops2.append("|".join(["serve", str(cur), "1" if status_done(case) else "0", ev_tokens(evs, payloads, terminals),
+                              ",".join(map(str, hb)), "1" if case["incl"] else "0"]))
+        impl2.append(f"status={st}" if body is None else f"stream closes={1 if closed else 0} body={cps(body)}")
+        ctx.append({"framing": True, "events": evs, "status": status, "cursor": cur, "hb": hb, "hb_interval": case["hb"], "incl": case["incl"]})
+
+    # ---- the client's line iterator alone: arbitrary chunkings, with and without a clean end
+    ops3: list[str] = []
+    impl3: list[str] = []
+    rng3 = random.Random(rng.randrange(1 << 30))
+    for i in range(env.budget(300, 5000)):
+        chunks, eof = gen_chunks(rng3)
+        ops3.append("|".join(["lines", "1" if eof else "0", ";".join("c" + cps(c) for c in chunks)]))
+        impl3.append(sse.run_iter_lines(chunks, eof))
+        out.evaluations += 1
+        out.count("lines:" + ("clean-end" if eof else "cut"))
+        out.count("lines:chunks:%s" % (len(chunks) if len(chunks) < 4 else "4+"))
+        if any(c == "" for c in chunks):
+            out.count("lines:has-empty-chunk")
+        ctx.append({"lines": True, "chunks": chunks, "eof": eof})
+    # ---- int() as the server / the frame parser apply it, str() as the reader applies it
+    for i in range(env.budget(400, 6000)):
+        t = gen_int_text(rng3)
+        try:
+            got = f"int={int(t)}"
+        except ValueError:
+            got = "int=error"
+        ops3.append("int|" + cps(t))
+        impl3.append(got)
+        out.count("int:" + ("ok" if got != "int=error" else "error"))
+        ctx.append({"int": True, "text": t})
+    for i in range(env.budget(100, 1500)):
+        nn = rng3.choice([-1, 0, 1, 9, 10, -10, 99, 100, 12345678901234567890]) if rng3.random() < 0.3 else rng3.randint(-2000, 10 ** rng3.randint(1, 12))
+        txt = str(nn)
+        ops3.append(f"cursor|{nn}")
+        impl3.append(f"text={cps(txt)} back={int(txt)}")
+        out.count("cursor:" + ("negative" if nn < 0 else "non-negative"))
+        ctx.append({"cursor": True, "n": nn})
+    out.evaluations += env.budget(500, 7500)
+
     # ---- malformed protocol lines
-    bad_ops = ["", "run", "run|x|-1|0|||", "run|3|-1|0|0:2:65||n~~", "run|3|-1|0|||q~~", "serve|a|0||", "run|3|-1|0|||d~~", "nonsense|1"]
+    bad_ops = ["", "run", "run|x|-1|0|||", "run|3|-1|0|0:2:65||n~~", "run|3|-1|0|||q~~", "serve|a|0||", "run|3|-1|0|||d~~", "nonsense|1",
+               "live|3|-1|||n~~", "live|3|-1|||n~~~1", "lines|2|", "lines|1|105", "int|x", "cursor|1.5"]
     bad_exp = ["bad-op"] * len(bad_ops)
 
     try:
-        model_out = Driver("sseclient").run(ops + ops2 + bad_ops)
+        model_out = Driver("sseclient").run(ops + ops2 + ops3 + bad_ops)
     except Exception as e:  # noqa: BLE001
         out.divergences.append(Divergence("sseclient", 0, "<driver>", repr(e), ""))
         return out
-    all_ops = ops + ops2 + bad_ops
-    all_impl = impl + impl2 + bad_exp
+    all_ops = ops + ops2 + ops3 + bad_ops
+    all_impl = impl + impl2 + impl3 + bad_exp
     out.traces_validated = len(all_ops)
     out.disagreements_checked = len(all_ops)
     d = diff_streams("sseclient", [o[:400] for o in all_ops], model_out, all_impl)
@@ -536,7 +815,7 @@ def run(env: Env) -> Outcome:
         if d.index < len(ctx):
             d.context = ctx[d.index]
             # a correspondence failure on a well-formed case is also reported as a replayable input
-            if not ctx[d.index].get("framing"):
+            if not any(ctx[d.index].get(k) for k in ("framing", "lines", "int", "cursor")):
                 out.violations.append(Violation("C17/model-disagrees", f"model: {d.model_out[:200]} / implementation: {d.impl_out[:200]}",
                                                 ctx[d.index]))
         out.divergences.append(d)
